@@ -139,8 +139,8 @@ func c05CreateSQLiteDB(path string) error {
 type c05Step struct {
 	Op    byte
 	ID    int
-	Class byte // value class for C/R/S: p plain, n NUL and non-UTF-8 bytes, L large, e empty, 0 nil
-	Size  int  // L: size
+	Class byte // value class for C/R/S: p plain, n NUL and non-UTF-8 bytes, L large, e empty, 0 nil, d one of two values shared by all writers of the ID
+	Size  int  // L: size; d: which of the shared values
 	Pick  int  // S: which held checkpoint
 }
 
@@ -151,15 +151,19 @@ func (s c05Step) String() string {
 	case 'F':
 		return fmt.Sprintf("F%d", s.ID)
 	}
-	if s.Class == 'L' {
-		return fmt.Sprintf("%c%dL%d", s.Op, s.ID, s.Size)
+	if s.Class == 'L' || s.Class == 'd' {
+		return fmt.Sprintf("%c%d%c%d", s.Op, s.ID, s.Class, s.Size)
 	}
 	return fmt.Sprintf("%c%d%c", s.Op, s.ID, s.Class)
 }
 
-// c05Value builds the (unique, thanks to tag) value a step writes.
+// c05Value builds the value a step writes: unique thanks to tag, except for class d
+// (two values per log ID that any client may write, so that equal values are written
+// by different clients and a value can come back after it was replaced).
 func c05Value(s c05Step, tag string) []byte {
 	switch s.Class {
+	case 'd':
+		return []byte(fmt.Sprintf("c05 checkpoint\nshared id%d v%d\n", s.ID, s.Size))
 	case '0':
 		return nil
 	case 'e':
@@ -274,7 +278,10 @@ func c05GenCase(t *rapid.T, kind string, modes []string, maxClients int) *c05Cas
 					st.ID = rapid.IntRange(0, cs.NIDs-1).Draw(t, "id")
 				}
 				if st.Op == 'R' || st.Op == 'S' || st.Op == 'C' {
-					st.Class = rapid.SampledFrom([]byte("ppppppppnnnnLee00")).Draw(t, "class")
+					st.Class = rapid.SampledFrom([]byte("ppppppnnnLee00dddddd")).Draw(t, "class")
+					if st.Class == 'd' {
+						st.Size = rapid.IntRange(0, 1).Draw(t, "shared")
+					}
 					if st.Class == 'e' || st.Class == '0' {
 						// the empty value cannot be made unique: at most one writer of it per ID
 						if emptyUsed[st.ID] {
@@ -484,6 +491,10 @@ type c05In struct {
 	kind     string
 	id       int
 	old, new string
+	// the expected value was stored more than once in this history (a shared value that was replaced and came
+	// back): the caller's handle may stem from an earlier period, and a backend that compares versions (ETag) may
+	// then refuse although the bytes are equal — "still the one the caller fetched" is not met
+	oldCameBack bool
 }
 type c05Out struct {
 	ok, notFound, transient bool
@@ -535,7 +546,9 @@ var c05Model = porcupine.Model{
 				if o.ok {
 					return true, c05State{true, i.new}
 				}
-				return o.transient, s
+				// replacing a value by itself may be refused (SQLite: "this also hits if new == old.body"); the statement
+				// only says when a replace may succeed, and the register holds the same value either way
+				return o.transient || i.new == i.old || i.oldCameBack, s
 			}
 			return !o.ok, s
 		}
@@ -637,8 +650,16 @@ func c05Check(t c05Failer, kind string, ops []c05Op) c05Verdict {
 			t.Fatalf("C05 create-once: %s backend: Create succeeded %d times for log id%d:\n  %s\n  %s\nhistory:\n%s", kind, len(cs), id, cs[0], cs[1], c05Dump(ops, id))
 		}
 	}
+	// how often each value became the stored one (a shared value can come back after it was replaced: every
+	// successful replace from P uses up one period in which P was stored)
+	becameStored := map[pred]int{}
+	for _, o := range ops {
+		if o.Kind != "fetch" && o.OK {
+			becameStored[pred{o.ID, o.New}]++
+		}
+	}
 	for p, rs := range replaces {
-		if len(rs) > 1 {
+		if len(rs) > 1 && len(rs) > becameStored[p] {
 			t.Fatalf("C05 one successor: %s backend: %d Replace calls succeeded on the same predecessor value %s of id%d:\n  %s\n  %s\nhistory:\n%s", kind, len(rs), c05Abbrev(p.old), p.id, rs[0], rs[1], c05Dump(ops, p.id))
 		}
 	}
@@ -678,7 +699,7 @@ func c05Check(t c05Failer, kind string, ops []c05Op) c05Verdict {
 	for _, o := range ops {
 		h = append(h, porcupine.Operation{
 			ClientId: o.Phase*1000 + o.Client,
-			Input:    c05In{kind: o.Kind, id: o.ID, old: o.Old, new: o.New},
+			Input:    c05In{kind: o.Kind, id: o.ID, old: o.Old, new: o.New, oldCameBack: o.Kind == "replace" && becameStored[pred{o.ID, o.Old}] > 1},
 			Call:     o.Call,
 			Output:   c05Out{ok: o.OK, notFound: o.NotFound, transient: o.Transient, val: o.Val},
 			Return:   o.Ret,
